@@ -761,7 +761,7 @@ class Explorer:
                     return
                 # undecided: the success edge is followed under the assumption; the obligation is recorded
                 ops = tuple(self.operand(st, fr, t["msg"][k]) for k in ("a", "b", "len", "index") if k in t["msg"])
-                tys = tuple(self.operand_ty(fn, t["msg"][k]) for k in ("a", "b", "len", "index") if k in t["msg"])
+                tys = tuple((t["msg"].get(k + "ty") or self.operand_ty(fn, t["msg"][k])) for k in ("a", "b", "len", "index") if k in t["msg"])
                 st.effects.append(("assert", t["msg"]["k"], site, "open", (t["msg"].get("op"), cv, ops, tys), dict(st.cons)))
                 if ev is not None:
                     self.assume_bool(st, ev, t["expected"])
@@ -896,6 +896,10 @@ class Explorer:
             alt = self.local_from(info["targs"][0], info["targs"][1])
             if alt:
                 path = alt
+        if info["path"] == "std::convert::TryInto::try_into" and len(info.get("targs", [])) == 2:
+            alt = self.local_from(info["targs"][0], info["targs"][1], "try_from", "TryFrom")
+            if alt:
+                path = alt
         # closure invocation
         if info["path"].startswith("std::ops::Fn") and args and self.closure_of(st, args[0]) is not None:
             clo = self.closure_of(st, args[0])
@@ -937,14 +941,14 @@ class Explorer:
         self.opaque_call(st, fr, path, args, dest, site, info)
         return self.after_call(st, fr, target)
 
-    def local_from(self, t_from, t_to):
-        """In-crate `impl From<t_from> for t_to` (the target of the blanket Into::into), if any."""
-        key = (t_from, t_to)
+    def local_from(self, t_from, t_to, method="from", trait="From"):
+        """In-crate `impl From<t_from> for t_to` (the target of the blanket Into::into / TryInto::try_into), if any."""
+        key = (t_from, t_to, method)
         c = self._from_cache.get(key)
         if c is None:
             c = ""
             for f in self.F.fns.values():
-                if f.get("name") == "from" and f.get("impl_self") == t_to and f.get("impl_trait_ref", "").endswith("From<%s>" % t_from):
+                if f.get("name") == method and f.get("impl_self") == t_to and f.get("impl_trait_ref", "").endswith("%s<%s>" % (trait, t_from)):
                     c = f["path"]
             self._from_cache[key] = c
         return c or None
@@ -1496,6 +1500,8 @@ def default_inline(ex, callee, info):
         return True
     if callee.get("name") == "from" and "mqtt::result_code" in callee["path"]:
         return True
+    if callee.get("name") == "try_from" and callee.get("impl_self", "").startswith("mqtt::packet::enum_store_packet::GenericStorePacket"):
+        return True      # Publish/Pubrel -> stored packet: decided by the same qos() atom the handler tested
     return False
 
 
